@@ -102,6 +102,24 @@ func f(name, typ, expr, tag string, tagged bool, tagname string, opts ...string)
 	return field{name, typ, expr, tag, tagged, tagname, opts}
 }
 
+// orderStruct: three fields named Aa < Bb < Cc whose kinds (C clone-only, P print-only, B both)
+// are given in name order.
+func orderStruct(kinds ...string) []field {
+	names := []string{"Aa", "Bb", "Cc"}
+	var out []field
+	for i, k := range kinds {
+		switch k {
+		case "C":
+			out = append(out, f(names[i], "string", strconv.Quote("clone-"+names[i]), `gerror:"_,clone"`, true, "_", "clone"))
+		case "P":
+			out = append(out, f(names[i], "int", strconv.Itoa(10+i), `gerror:"_,print"`, true, "_", "print"))
+		default:
+			out = append(out, f(names[i], "Status", "Status(3)", `gerror:"_,print,clone"`, true, "_", "print", "clone"))
+		}
+	}
+	return out
+}
+
 // fixedTypes: the repository's own fixtures and the corner cases of the tag handling.
 func fixedTypes() []typ {
 	return []typ{
@@ -121,6 +139,24 @@ func fixedTypes() []typ {
 			f("aB", "map[string]int", `map[string]int{"k": 1, "a": 2}`, `gerror:"with space,print"`, true, "with space", "print"),
 			f("X1", "error", `errors.New("inner")`, `gerror:"_,clone"`, true, "_", "clone")}},
 		{Name: "K1", Skip: true, Fields: nil},
+		// clone-only (C), print-only (P) and print+clone (B) fields in every relative name order
+		// (fields are sorted by name before the print and clone lists are derived from them)
+		{Name: "O1", Fields: orderStruct("C", "P", "B")},
+		{Name: "O2", Fields: orderStruct("C", "B", "P")},
+		{Name: "O3", Fields: orderStruct("P", "C", "B")},
+		{Name: "O4", Fields: orderStruct("P", "B", "C")},
+		{Name: "O5", Fields: orderStruct("B", "C", "P")},
+		{Name: "O6", Skip: true, Fields: orderStruct("B", "P", "C")},
+		{Name: "O7", Fields: []field{ // two clone-only fields around a renamed print-only one
+			f("Account", "string", `"acct-42"`, `gerror:"_,clone"`, true, "_", "clone"),
+			f("Limit", "int", "100", `gerror:"limit,print"`, true, "limit", "print"),
+			f("Window", "time.Duration", "1500 * time.Millisecond", `gerror:"_,clone"`, true, "_", "clone")}},
+		{Name: "O8", Skip: true, Fields: []field{ // the same with untagged fields in between, declared unsorted
+			f("Window", "time.Duration", "1500 * time.Millisecond", `gerror:"_,clone"`, true, "_", "clone"),
+			f("note", "string", `"n"`, "", false, ""),
+			f("Limit", "int", "100", `gerror:"_,print"`, true, "_", "print"),
+			f("Account", "string", `"acct-42"`, `gerror:"_,clone"`, true, "_", "clone"),
+			f("Burst", "bool", "true", `gerror:"_,print,clone"`, true, "_", "print", "clone")}},
 		{Name: "G3", Fields: []field{ // a print name is text, not a format
 			f("A", "int", "3", `gerror:"pct%d,print,clone"`, true, "pct%d", "print", "clone"),
 			f("B", "string", `"bee"`, `gerror:"50%,print,clone"`, true, "50%", "print", "clone")}},
@@ -204,6 +240,7 @@ func main() {
 	seed := flag.Uint64("seed", 1, "PRNG seed")
 	n := flag.Int("n", 20, "number of random struct definitions (besides the fixed ones)")
 	dir := flag.String("dir", ".", "package directory to write into")
+	exclude := flag.String("exclude", "", "comma-separated struct names to leave out (structs whose generated code does not compile)")
 	flag.Parse()
 	r := rand.New(rand.NewPCG(*seed, 0x9e3779b97f4a7c15))
 	ts := fixedTypes()
@@ -215,6 +252,19 @@ func main() {
 		}
 		ts = append(ts, randType(r, name, skip, i%7)) // 0..6 extra fields
 	}
+	if *exclude != "" {
+		skip := map[string]bool{}
+		for _, n := range strings.Split(*exclude, ",") {
+			skip[n] = true
+		}
+		kept := ts[:0:0]
+		for _, t := range ts {
+			if !skip[t.Name] {
+				kept = append(kept, t)
+			}
+		}
+		ts = kept
+	}
 	must := func(err error) {
 		if err != nil {
 			panic(err)
@@ -223,14 +273,15 @@ func main() {
 	must(os.WriteFile(filepath.Join(*dir, "farm_gen.go"), []byte(render(ts, false)), 0o644))
 	must(os.WriteFile(filepath.Join(*dir, "farm_skip.go"), []byte(render(ts, true)), 0o644))
 	must(os.WriteFile(filepath.Join(*dir, "farm_reg.go"), []byte(registry(ts)), 0o644))
-	out := map[string][]string{"gen": {}, "skip": {}}
+	gen, skip, defs := []string{}, []string{}, map[string]typ{}
 	for _, t := range ts {
 		if t.Skip {
-			out["skip"] = append(out["skip"], t.Name)
+			skip = append(skip, t.Name)
 		} else {
-			out["gen"] = append(out["gen"], t.Name)
+			gen = append(gen, t.Name)
 		}
+		defs[t.Name] = t
 	}
-	b, _ := json.Marshal(out)
+	b, _ := json.Marshal(map[string]any{"gen": gen, "skip": skip, "defs": defs})
 	fmt.Println(string(b))
 }
